@@ -282,6 +282,10 @@ def main():
             for mesh in ("pair:2:012:120", "pair:2:201:021", "pair:1:012:201", "pair:1:120:012") + (("tetra",) if (thorough or pc == pcs[0]) else ()):
                 run.add("pipeline.%s[%s %s]" % (at, mesh, pc), "post", PL.ob_pipeline, mesh, ts, rs, None, None, at, pc)
             run.add("pipeline.%s[two grids, all regular, %s]" % (at, pc), "post", PL.ob_pipeline, "pair:2:012:120", ts, rs, None, "pair:1:012:201", at, pc)
+            if at.startswith("maxwell") and pc == pcs[0]:
+                # "with and without boundary dofs": default options leave two of the three local edge functions of every element without a dof (multiplier 0)
+                run.add("pipeline.%s[two grids, all regular, no boundary dofs (zero multipliers), %s]" % (at, pc), "post", PL.ob_pipeline, "pair:2:012:120", ("SNC", 0, {}), ("RWG", 0, {}),
+                        None, "pair:2:201:021", at, pc)
     sw = ("DP", 1, {"swapped_normals": [2]})
     for at, pc in (("laplace_hypersingular", "-"), ("helmholtz_hypersingular", "ki!=0"), ("modified_helmholtz_hypersingular", "w")):
         run.add("pipeline.%s[tetra, mixed swapped normals]" % at, "post", PL.ob_pipeline, "tetra", sw, DP1, [1, 2, 2, 1], None, at, pc)
